@@ -234,6 +234,14 @@ func propC04(c *Ctx, r *Report) {
 	}
 	// the unfilled part of a PEG request is given back: nothing is destroyed when the share rounds to zero (shared with C16)
 	ruleRefundFormula(c, r, "C04-R9/refund-formula")
+	// FCT burns issue pFCT only before PegNet 2.0 (shared with C11)
+	{
+		e4 := newEraCtx(c, r)
+		r.rule("C04-R10/burn-era", 1, "FCT burns are credited only before 2.0")
+		e4.evalRows(r, []row{burnRow(e4, "C04-R10/burn-era")})
+	}
+	// the one-time burn of the minted supply destroys exactly the minted tickers (shared with C15)
+	ruleMintBurnScope(c, r, "C04-R11/mint-burn-scope")
 	// developer rewards are one of the enumerated events: exactly their amounts (shared with C15)
 	ruleDevRewards(c, r, newEraCtx(c, r), "C04-R8/dev-reward-amounts")
 	// R5 second pass
